@@ -911,6 +911,27 @@ class Sim(object):
             self.sig.append("i")
         self.count("probe.kind." + kind)
         self.count("ops")
+        # coverage of the input grammar, for the evidence file
+        if kind == "bad":
+            self.count("cover.bad_slot." + str(spec.get("slot")))
+        if kind == "rec":
+            self.count("cover.rec_form.%s%s" % (
+                spec["form"], "" if spec["reps"] else "_unbounded"))
+        if kind == "point":
+            self.count("cover.point_src." + spec["src"])
+            if spec.get("pfmt"):
+                self.count("cover.parse_format")
+            for o in spec["offsets"]:
+                self.count("cover.offset." + (
+                    "alt_notation" if o.get("alt") else
+                    "nominal" if o["us"] is None else "exact"))
+        for nota in ([spec.get("notation")] if kind in ("point", "rec")
+                     else [p["notation"] for p in spec.get("points", [])]):
+            if nota:
+                self.count("cover.date." + nota["date"] + (
+                    "+x" if nota["ystyle"] == "x" else ""))
+                self.count("cover.time." + str(nota["time"]))
+                self.count("cover.zone." + str(nota["zone"]))
         for flag in ("utc", "cal"):
             if spec.get(flag):
                 self.count("probe.opt." + {"cal": "calendar"}.get(flag, flag))
